@@ -209,6 +209,20 @@ def strata(tier):
                 for via in ("dsl", "spec"):
                     yield {"rule": {"path": PC.mkpath(rpath), "cond": cond, "cast": cast}, "doc": doc, "via": via,
                            "pos": "list-item" if fn == "in_" else "positional", "pcls": "concrete"}
+    # path arguments that select NOTHING although naive indexing would find something (string leaves, negative / out-of-range
+    # indices, typed-twin keys): the argument must resolve to None
+    idoc = {"name": "abc", "items": [1, 2, 3], "m": {"1": "s", 1: "i", True: "b"}, "v": 3, "w": "c", "z": None, "n": {"k": None}}
+    for arg in ([{"p": "prim", "v": "name"}, {"p": "prim", "v": 0}], [{"p": "prim", "v": "items"}, {"p": "prim", "v": -1}],
+                [{"p": "prim", "v": "items"}, {"p": "prim", "v": 3}], [{"p": "prim", "v": "items"}, {"p": "prim", "v": "0"}],
+                [{"p": "prim", "v": "name"}, {"p": "prim", "v": -1}], [{"p": "prim", "v": "m"}, {"p": "prim", "v": 1.0}],
+                [{"p": "prim", "v": "v"}, {"p": "prim", "v": 0}], [{"p": "prim", "v": "z"}], [{"p": "prim", "v": "n"}, {"p": "prim", "v": "k"}],
+                [{"p": "prim", "v": "items"}, {"p": "prim", "v": True}], [{"p": "prim", "v": "name"}, {"p": "list"}]):
+        P = {"$path": PC.mkpath(arg)}
+        for cond in (PC.L("value", "equal_to", P), PC.L("value", "not_equal_to", P), PC.L("value", "in_", [P, "c", 3, "a"]),
+                     PC.L("value", "in_", [{"$path": dict(PC.mkpath(arg), datum=None, multi=None)}, None])):
+            for via in ("dsl", "spec"):
+                yield {"rule": {"path": PC.mkpath([{"p": "map"}]), "cond": cond, "cast": None}, "doc": idoc, "via": via,
+                       "pos": "list-item" if cond["fn"] == "in_" else "positional", "pcls": "concrete"}
     # escaped literal mappings
     for j, lit in enumerate([{"kind": "ref", "path": ["a", "b"]}, {"a": 1, "Path.length": 2, "z": 0}, {"path": ["a"], "kind": "ref"},
                              {"k": 0, "path": ["a"], "PATH.first": 3}, {"kind": "r%d" % 1, "path": 3}, {"x": [1], "path": {"path": 1}},
